@@ -144,6 +144,43 @@ Section Model.
     | OCancelled dl => MF (ctx_err dl)
     | OErrWith e _ _ => MF e
     end.
+
+  (* ---- requestPart, one level below msg_of: from what the backend proxy returned ---- *)
+  (* (in, err) as returned by next(localCtx, request) *)
+  Definition backend_return := (option resp * option ekind)%type.
+
+  (* requestPart.  ctx_first = Some ce: the final select took <-ctx.Done() (possible only
+     once the merge context is done; ce is ctx.Err()); None: it took out <- in. *)
+  Definition request_part (ret : backend_return) (ctx_first : option ekind) : msg :=
+    match snd ret with
+    | Some e => MF e                           (* err != nil: failed <- err (in is dropped) *)
+    | None =>
+        match fst ret with
+        | None => MF ENull                     (* in == nil: failed <- errNullResult *)
+        | Some r => match ctx_first with
+                    | None => MP r             (* case out <- in *)
+                    | Some ce => MF ce         (* case <-ctx.Done(): failed <- ctx.Err() *)
+                    end
+        end
+    end.
+
+  (* what a backend with a given outcome returns *)
+  Definition return_of (o : outcome) : backend_return :=
+    match o with
+    | OPayload c d => (Some {| data := d; complete := c |}, None)
+    | OErr e => (None, Some e)
+    | OEmpty => (None, None)
+    | OCancelled dl => (None, Some (ctx_err dl))   (* returns ctx.Err() once its context is done *)
+    | OErrWith e c d => (Some {| data := d; complete := c |}, Some e)
+    end.
+
+  (* the outcome as the merging goroutine sees it: a payload that lost the select against
+     the cancellation counts as a cancelled backend *)
+  Definition effective (o : outcome) (ctx_first : option ekind) : outcome :=
+    match o, ctx_first with
+    | OPayload _ _, Some ce => OErr ce
+    | _, _ => o
+    end.
 End Model.
 
 Arguments data {V}.
@@ -169,3 +206,6 @@ Arguments OEmpty {V}.
 Arguments OCancelled {V}.
 Arguments OErrWith {V}.
 Arguments msg_of {V}.
+Arguments request_part {V}.
+Arguments return_of {V}.
+Arguments effective {V}.
